@@ -101,6 +101,24 @@ example : rankOK { n := 2, edges := [(0, 1), (1, 0)], guard := [false, false] } 
     guard (the translator's rank certificate is valid).  Kernel evaluation. -/
 theorem cg_rank_ok : rankOK JanetModel.Gen.Depth.cg JanetModel.Gen.Depth.rank = true := by decide +kernel
 
+/-- ★ per-run obligation: every path through the functions that charge / release a depth counter (peg down1/up1,
+    peg builder depth, compiler recursion_guard, gc depth, janet_vm.stackn) releases no more than it charged, and exactly
+    what it charged when it ends normally.  Kernel evaluation over the path classes regenerated from the source. -/
+theorem cg_counters_balanced : balanced JanetModel.Gen.Depth.balancePaths = true := by decide +kernel
+
+/-- ★ per-run obligation: marshal / unmarshal charge their depth argument (`flags + 1`) on every call cycle - the
+    graph of NON-charging calls among the (un)marshal functions is acyclic (rank certificate, no guards). -/
+theorem cg_depth_arg_charged :
+    rankOK JanetModel.Gen.Depth.depthArgCg JanetModel.Gen.Depth.depthArgRank = true := by decide +kernel
+
+/-- consequence for every sequence of completed paths: never more given back than taken (for all lists) -/
+theorem counters_no_excess_release (ps : List PathCount) (h : balanced ps = true) :
+    (ps.map (·.releases)).sum ≤ (ps.map (·.charges)).sum :=
+  balanced_no_excess_release ps h
+
+example : balanced [⟨"peg", "peg_rule", "RULE_IFNOT:goto", false, 1, 2⟩] = false := by decide
+example : balanced [⟨"peg", "peg_rule", "RULE_IFNOT:goto", false, 1, 1⟩, ⟨"c", "janetc_value", "entry:error", true, 1, 0⟩] = true := by decide
+
 /-- the generated tables are consistent -/
 theorem cg_tables_consistent :
     JanetModel.Gen.Depth.names.length = JanetModel.Gen.Depth.nV ∧
